@@ -125,6 +125,15 @@ def generate(ctx):
             c["coq"] = (lambda f=f: (lambda obs: "(WVar %s)" % f(obs)))()
             cs.append(c)
             cid += 1
+        # the same windows under --aggregate: a window selects rows of the table, it changes no frequency (the Coq model of the aggregate writer and the statement-level comparison with the unrestricted table)
+        for (s, e) in wins:
+            c = vcommon.variants_case(cid, msa, "REF", annob, suffix, {"kind": "variants-agg", "nontrivial": (s, e) != (-1, -1), "group": (g, "agg"),
+                                                                        "role": (s, e, 0), "opts": {"start": s, "end": e}},
+                                      start=s, end=e, append_snps=append, aggregate=True, threshold=0.0, info={})
+            f = c["coq"]
+            c["coq"] = (lambda f=f: (lambda obs: "(WVar %s)" % f(obs)))()
+            cs.append(c)
+            cid += 1
         g += 1
     return cs
 
@@ -189,6 +198,22 @@ def post_go(ctx, cases, obs):
                     exp = [[h, q[a:b]] for h, q in full]
                     if got != exp:
                         flag(c, "pair window is not the cut from the column of base %d to that of base %d: got %r expected %r" % (ss, ee, got, exp))
+            elif kind == "variants-agg":
+                import re
+                def apos(m):
+                    if m.startswith(("ins:", "del:")):
+                        return int(m.split(":")[1])
+                    if m.startswith("nuc:"):
+                        return int(re.match(r"nuc:[^0-9-]+(-?\d+)", m).group(1))
+                    return None
+                frow = [l for l in b0.decode().split("\n")[1:] if l]
+                grow = [l for l in out.decode().split("\n")[1:] if l]
+                inw = lambda p: not ((s > 0 and p < s) or (e > 0 and p > e))
+                keep = [l for l in frow if apos(l.rsplit(",", 1)[0]) is not None and inw(apos(l.rsplit(",", 1)[0]))]
+                if [l for l in grow if apos(l.rsplit(",", 1)[0]) is not None] != keep:
+                    flag(c, "--aggregate under the window %s..%s lists %r; the rows of the unrestricted table with s <= p <= e are %r" % (s, e, grow, keep))
+                if not set(l for l in grow if apos(l.rsplit(",", 1)[0]) is None) <= set(frow):
+                    flag(c, "--aggregate under the window %s..%s has an amino-acid row (or frequency) that the unrestricted table does not have: %r vs %r" % (s, e, grow, frow))
             else:
                 full = anno.parse_rows(b0)[1]
                 got = anno.parse_rows(out)[1]
